@@ -730,7 +730,7 @@ theorem bindable_of_aligned {I : Iface} {c : Ctor} (hI : NodupNames I) (ha : Ali
     · rw [hd] at h1; cases h1
     · exact hr a.1 h1
 
-/-! ## value validation -/
+/-! ## the `__init__` interpreter -/
 
 theorem validateHost_err {h : Str} {e : PyExc} (he : validateHost h = .err e) : e = .descriptor := by
   unfold validateHost at he
@@ -739,163 +739,132 @@ theorem validateHost_err {h : Str} {e : PyExc} (he : validateHost h = .err e) : 
   · split at he <;> cases he
     rfl
 
-/-- which argument of which `__init__` body is validated as what -/
-def expected : Kind → List (Str × Ty)
-  | .serial => [(sDevice, .str), (sBaudrate, .int), (sBytesize, .int), (sParity, .str), (sStopbits, .float), (sRtscts, .bool)]
-  | .tcp => [(sHost, .str), (sPort, .int)]
-  | .udp => [(sHost, .str), (sPort, .int)]
-  | .usbtmc => [(sVendorid, .int), (sProductid, .int)]
-  | .gpib => []
-  | .vxi11 => [(sHost, .str)]
+/-- the type of value a validator test is written for -/
+def Cond.ty : Cond → Ty
+  | .lt _ => .int
+  | .gt _ => .int
+  | .eq _ => .int
+  | .or a _ => a.ty
+  | .notInStrs _ => .str
+  | .notStopbits => .float
+  | .notBool => .bool
+  | .notDevice _ _ => .str
+  | .badHost => .str
 
-theorem andThen_err {r k : Res Unit} {e : PyExc} (h : r.andThen k = .err e) : r = .err e ∨ k = .err e := by
-  cases r with
-  | ok u => exact Or.inr (by simpa [Res.andThen] using h)
-  | err e' => simp only [Res.andThen] at h; cases h; exact Or.inl rfl
+/-- both sides of an `or` test the same kind of value -/
+def Cond.wf : Cond → Bool
+  | .or a b => a.wf && b.wf && a.ty == b.ty
+  | _ => true
 
-theorem ite_err {c : Prop} [Decidable c] {e e' : PyExc} (h : (if c then Res.ok () else Res.err e') = .err e) :
-    e = e' := by
-  by_cases hc : c
-  · simp [hc] at h
-  · simp only [hc, if_false] at h; cases h; rfl
+/-- on a value of the type it is written for a validator test does not raise -/
+theorem holds_typed (c : Cond) (v : PyVal) (hw : c.wf = true) (ht : valTy v c.ty = true) : ∃ b, c.holds v = .ok b := by
+  induction c with
+  | lt k => cases v <;> simp [valTy, Cond.ty] at ht; exact ⟨_, rfl⟩
+  | gt k => cases v <;> simp [valTy, Cond.ty] at ht; exact ⟨_, rfl⟩
+  | eq k => cases v <;> simp [valTy, Cond.ty] at ht; exact ⟨_, rfl⟩
+  | or a b iha ihb =>
+    simp only [Cond.wf, Bool.and_eq_true, beq_iff_eq] at hw
+    obtain ⟨⟨wa, wb⟩, hty⟩ := hw
+    have hta : valTy v a.ty = true := ht
+    have htb : valTy v b.ty = true := by rw [← hty]; exact ht
+    obtain ⟨ba, ha⟩ := iha wa hta
+    obtain ⟨bb, hb⟩ := ihb wb htb
+    simp only [Cond.holds, ha]
+    cases ba
+    · exact ⟨bb, hb⟩
+    · exact ⟨true, rfl⟩
+  | notInStrs l => cases v <;> simp [valTy, Cond.ty] at ht; exact ⟨_, rfl⟩
+  | notStopbits =>
+    cases v <;> simp [valTy, Cond.ty] at ht
+    · exact ⟨_, rfl⟩
+    · rename_i lit
+      cases hf : floatParse lit with
+      | none => rw [hf] at ht; cases ht
+      | some f => exact ⟨!(floatIsStopbits f), by simp only [Cond.holds, hf]⟩
+  | notBool => cases v <;> simp [valTy, Cond.ty] at ht; exact ⟨_, rfl⟩
+  | notDevice up pre => cases v <;> simp [valTy, Cond.ty] at ht; exact ⟨_, rfl⟩
+  | badHost => cases v <;> simp [valTy, Cond.ty] at ht; exact ⟨_, rfl⟩
 
-theorem vDevice_err {v : PyVal} {e : PyExc} (ht : valTy v .str = true) (h : vDevice v = .err e) : e = .descriptor := by
-  cases v <;> simp [valTy] at ht
-  simp only [vDevice] at h
-  exact ite_err h
+def validatesOf : List Stmt → List (Str × Cond)
+  | [] => []
+  | .validate p c :: r => (p, c) :: validatesOf r
+  | _ :: r => validatesOf r
 
-theorem vBaudrate_err {v : PyVal} {e : PyExc} (ht : valTy v .int = true) (h : vBaudrate v = .err e) : e = .descriptor := by
-  cases v <;> simp [valTy] at ht
-  simp only [vBaudrate] at h
-  split at h <;> cases h; rfl
+def storesOf : List Stmt → List (Str × List Str)
+  | [] => []
+  | .store a ps :: r => (a, ps) :: storesOf r
+  | _ :: r => storesOf r
 
-theorem vBytesize_err {v : PyVal} {e : PyExc} (ht : valTy v .int = true) (h : vBytesize v = .err e) : e = .descriptor := by
-  cases v <;> simp [valTy] at ht
-  simp only [vBytesize] at h
-  split at h <;> cases h; rfl
+def resolvesOf : List Stmt → List Str
+  | [] => []
+  | .resolveLocalhost p :: r => p :: resolvesOf r
+  | _ :: r => resolvesOf r
 
-theorem vParity_err {v : PyVal} {e : PyExc} (ht : valTy v .str = true) (h : vParity v = .err e) : e = .descriptor := by
-  cases v <;> simp [valTy] at ht
-  simp only [vParity] at h
-  split at h <;> cases h; rfl
+theorem arg_dset (env : List (Str × PyVal)) (p q : Str) (v : PyVal) :
+    arg (dset env p v) q = if p = q then v else arg env q := by
+  unfold arg
+  rw [dget_dset]
+  by_cases h : p = q <;> simp [h]
 
-theorem vStopbits_err {v : PyVal} {e : PyExc} (ht : valTy v .float = true) (h : vStopbits v = .err e) : e = .descriptor := by
-  cases v <;> simp [valTy] at ht
-  · simp only [vStopbits] at h
-    split at h <;> cases h; rfl
-  · simp only [vStopbits] at h
-    split at h
-    · split at h <;> cases h; rfl
-    · rename_i hn; rw [hn] at ht; cases ht
-
-theorem vRtscts_err {v : PyVal} {e : PyExc} (ht : valTy v .bool = true) (h : vRtscts v = .err e) : e = .descriptor := by
-  cases v <;> simp [valTy] at ht
-  simp [vRtscts] at h
-
-theorem vId_err {v : PyVal} {e : PyExc} (ht : valTy v .int = true) (h : vId v = .err e) : e = .descriptor := by
-  cases v <;> simp [valTy] at ht
-  simp only [vId] at h
-  split at h <;> cases h; rfl
-
-theorem vPort_err {E : Env} {u : Bool} {v : PyVal} {e : PyExc} (ht : valTy v .int = true) (h : vPort E u v = .err e) :
-    e = .descriptor := by
-  cases v <;> simp [valTy] at ht
-  simp only [vPort] at h
-  split at h
-  · cases h; rfl
-  · split at h <;> cases h; rfl
+theorem valTy_str (a b : Str) (t : Ty) : valTy (.str a) t = valTy (.str b) t := by cases t <;> rfl
 
 /-- with well-typed arguments an `__init__` body raises the descriptor error and nothing else -/
-theorem construct_err {E : Env} {kind : Kind} {a : List (Str × PyVal)} {e : PyExc}
-    (ht : ∀ nt ∈ expected kind, valTy (arg a nt.1) nt.2 = true) (h : construct E kind a = .err e) :
-    e = .descriptor := by
-  cases kind with
-  | serial =>
-    simp only [construct] at h
-    split at h
-    · cases h
-    · rename_i e' he
-      cases h
-      have t := fun n T hm => ht (n, T) hm
-      simp only [expected, List.mem_cons, List.mem_nil_iff, or_false] at t
-      rcases andThen_err he with h1 | he
-      · exact vDevice_err (t _ _ (by simp)) h1
-      rcases andThen_err he with h1 | he
-      · exact vBaudrate_err (t _ _ (by simp)) h1
-      rcases andThen_err he with h1 | he
-      · exact vBytesize_err (t _ _ (by simp)) h1
-      rcases andThen_err he with h1 | he
-      · exact vParity_err (t _ _ (by simp)) h1
-      rcases andThen_err he with h1 | he
-      · exact vStopbits_err (t _ _ (by simp)) h1
-      · exact vRtscts_err (t _ _ (by simp)) he
-  | tcp =>
-    have t1 := ht (sHost, .str) (by simp [expected])
-    have t2 := ht (sPort, .int) (by simp [expected])
-    simp only [construct] at h
-    cases hh : arg a sHost <;> rw [hh] at t1 <;> simp [valTy] at t1
-    simp only [hh] at h
-    split at h
-    · cases h
-    · rename_i e' he
-      cases h
-      rcases andThen_err he with h1 | h1
-      · exact validateHost_err h1
-      · exact vPort_err t2 h1
-  | udp =>
-    have t1 := ht (sHost, .str) (by simp [expected])
-    have t2 := ht (sPort, .int) (by simp [expected])
-    simp only [construct] at h
-    cases hh : arg a sHost <;> rw [hh] at t1 <;> simp [valTy] at t1
-    simp only [hh] at h
-    split at h
-    · cases h
-    · rename_i e' he
-      cases h
-      rcases andThen_err he with h1 | h1
-      · exact validateHost_err h1
-      · exact vPort_err t2 h1
-  | usbtmc =>
-    have t1 := ht (sVendorid, .int) (by simp [expected])
-    have t2 := ht (sProductid, .int) (by simp [expected])
-    simp only [construct] at h
-    split at h
-    · cases h
-    · rename_i e' he
-      cases h
-      rcases andThen_err he with h1 | h1
-      · exact vId_err t1 h1
-      · exact vId_err t2 h1
-  | gpib => simp [construct] at h
-  | vxi11 =>
-    have t1 := ht (sHost, .str) (by simp [expected])
-    simp only [construct] at h
-    cases hh : arg a sHost <;> rw [hh] at t1 <;> simp [valTy] at t1
-    simp only [hh] at h
-    split at h
-    · cases h
-    · rename_i e' he
-      cases h
-      exact validateHost_err he
+theorem exec_err {E : Env} {prog : List Stmt} {env : List (Str × PyVal)} {acc : List (Str × List PyVal)} {e : PyExc}
+    (ht : ∀ pc ∈ validatesOf prog, pc.2.wf = true ∧ valTy (arg env pc.1) pc.2.ty = true)
+    (h : exec E prog env acc = .err e) : e = .descriptor := by
+  induction prog generalizing env acc with
+  | nil => simp [exec] at h
+  | cons st r ih =>
+    cases st with
+    | validate p c =>
+      have hpc := ht (p, c) (by simp [validatesOf])
+      obtain ⟨b, hb⟩ := holds_typed c (arg env p) hpc.1 hpc.2
+      simp only [exec, hb] at h
+      cases b
+      · exact ih (fun pc hm => ht pc (by simp [validatesOf, hm])) h
+      · cases h; rfl
+    | resolveLocalhost p =>
+      simp only [exec] at h
+      have ht' : ∀ pc ∈ validatesOf r, pc.2.wf = true ∧ valTy (arg env pc.1) pc.2.ty = true :=
+        fun pc hm => ht pc (by simpa [validatesOf] using hm)
+      split at h
+      · rename_i hh harg
+        refine ih ?_ h
+        intro pc hm
+        refine ⟨(ht' pc hm).1, ?_⟩
+        rw [arg_dset]
+        by_cases hp : p = pc.1
+        · simp only [hp, if_true]
+          have := (ht' pc hm).2
+          rw [← hp, harg] at this
+          rw [valTy_str _ hh]; exact this
+        · simp only [hp, if_false]; exact (ht' pc hm).2
+      · exact ih ht' h
+    | store a ps =>
+      simp only [exec] at h
+      exact ih (fun pc hm => ht pc (by simpa [validatesOf] using hm)) h
 
-/-- the tables fit the hand-written `__init__` bodies: the constructor has every validated argument, the parser
-declares it with the type the validator expects, and a constructor default has that type too (decidable) -/
+/-- the tables fit the translated `__init__` bodies: every validator test is well formed, is applied to a constructor
+argument, the parser declares that parameter with the type the test is written for, and a constructor default has
+that type too (decidable) -/
 def ctorOk (I : Iface) (c : Ctor) : Bool :=
-  (expected c.kind).all (fun nt =>
-    c.args.any (fun a => a.1 = nt.1) &&
-    (paramsOf I).all (fun q => q.name != nt.1 || q.ty == nt.2) &&
-    c.args.all (fun a => a.1 != nt.1 || (match a.2 with | none => true | some v => valTy v nt.2)))
+  (validatesOf c.prog).all (fun pc =>
+    pc.2.wf &&
+    c.args.any (fun a => a.1 = pc.1) &&
+    (paramsOf I).all (fun q => q.name != pc.1 || q.ty == pc.2.ty) &&
+    c.args.all (fun a => a.1 != pc.1 || (match a.2 with | none => true | some v => valTy v pc.2.ty)))
 
 theorem args_typed {I : Iface} {c : Ctor} {p : Dict} {a : List (Str × PyVal)} (hc : ctorOk I c = true)
     (hp : ∀ k v, dget p k = some v → ∃ q ∈ paramsOf I, q.name = k ∧ valTy v q.ty = true)
-    (hb : bindArgs c p = .ok a) : ∀ nt ∈ expected c.kind, valTy (arg a nt.1) nt.2 = true := by
-  intro nt hnt
-  obtain ⟨n, T⟩ := nt
+    (hb : bindArgs c p = .ok a) : ∀ pc ∈ validatesOf c.prog, pc.2.wf = true ∧ valTy (arg a pc.1) pc.2.ty = true := by
+  intro pc hpc
+  obtain ⟨n, cd⟩ := pc
   unfold ctorOk at hc
-  have h1 := (List.all_eq_true.1 hc) (n, T) hnt
+  have h1 := (List.all_eq_true.1 hc) (n, cd) hpc
   simp only [Bool.and_eq_true, List.any_eq_true, List.all_eq_true, decide_eq_true_eq, Bool.or_eq_true,
     bne_iff_ne, ne_eq, beq_iff_eq] at h1
-  obtain ⟨⟨⟨ar, har, hn⟩, hty⟩, hdf⟩ := h1
+  obtain ⟨⟨⟨hwf, ⟨ar, har, hn⟩⟩, hty⟩, hdf⟩ := h1
+  refine ⟨hwf, ?_⟩
   have hg := bindEach_get (bindArgs_ok hb) n
   cases hf : c.args.find? (fun x => x.1 = n) with
   | none =>
@@ -1050,99 +1019,104 @@ theorem ctorMismatch_iff {E : Env} {win : Bool} {s : Str} {d : List (Str × PyVa
 instance (E : Env) (win : Bool) (s : Str) (d : List (Str × PyVal)) : Decidable (CtorMismatch E win s d) :=
   decidable_of_iff _ ctorMismatch_iff.symm
 
-/-! ## from the parameter dictionary to the attributes of the transport -/
+/-! ## from the bound arguments to the attributes of the transport -/
+
+def normLocalhost (E : Env) (h : Str) : Str := if h = sLocalhost then E.localhostAddr else h
 
 /-- the one documented normalisation: `QMI_SocketTransport.__init__` resolves the literal host `localhost` -/
-def normHost (E : Env) (kind : Kind) (n : Str) (v : PyVal) : PyVal :=
-  if n = sHost ∧ (kind = .tcp ∨ kind = .udp) then
-    (match v with
-     | .str h => .str (if h = sLocalhost then E.localhostAddr else h)
-     | v => v)
-  else v
+def resolveStep (E : Env) (env : List (Str × PyVal)) (p : Str) : List (Str × PyVal) :=
+  match arg env p with
+  | .str h => dset env p (.str (normLocalhost E h))
+  | _ => env
 
-/-- what the property says attribute `n` of the returned transport must be -/
-def attrSpec (E : Env) (c : Ctor) (I : Iface) (parts : List Str) (d : List (Str × PyVal)) (n : Str) : Option PyVal :=
+def resolveAll (E : Env) (ps : List Str) (env : List (Str × PyVal)) : List (Str × PyVal) := ps.foldl (resolveStep E) env
+
+/-- no `localhost` resolution after the first attribute assignment (so every attribute sees the same values) -/
+def ordered : List Stmt → Bool
+  | [] => true
+  | .store _ _ :: r => (resolvesOf r).isEmpty && ordered r
+  | _ :: r => ordered r
+
+/-- what the translated `__init__` stores: per assigned attribute, the values of the parameters named on the right -/
+def attrsOf (E : Env) (c : Ctor) (a : List (Str × PyVal)) : List (Str × List PyVal) :=
+  (storesOf c.prog).map (fun s => (s.1, s.2.map (arg (resolveAll E (resolvesOf c.prog) a))))
+
+theorem exec_ok {E : Env} {prog : List Stmt} {env : List (Str × PyVal)} {acc out : List (Str × List PyVal)}
+    (h : exec E prog env acc = .ok out) (ho : ordered prog = true) :
+    out = acc ++ (storesOf prog).map (fun s => (s.1, s.2.map (arg (resolveAll E (resolvesOf prog) env)))) := by
+  induction prog generalizing env acc with
+  | nil => simp only [exec] at h; cases h; simp [storesOf]
+  | cons st r ih =>
+    cases st with
+    | validate p c =>
+      simp only [exec] at h
+      split at h
+      · cases h
+      · cases h
+      · exact ih h ho
+    | resolveLocalhost p =>
+      simp only [exec] at h
+      have ho' : ordered r = true := ho
+      split at h
+      · rename_i hh harg
+        have := ih h ho'
+        simpa [storesOf, resolvesOf, resolveAll, resolveStep, harg, normLocalhost] using this
+      · rename_i hne
+        have := ih h ho'
+        have hstep : resolveStep E env p = env := by
+          unfold resolveStep
+          cases hv : arg env p <;> simp_all
+        simpa [storesOf, resolvesOf, resolveAll, hstep] using this
+    | store a ps =>
+      simp only [exec] at h
+      simp only [ordered, Bool.and_eq_true, List.isEmpty_iff] at ho
+      have := ih h ho.2
+      rw [this]
+      simp [storesOf, resolvesOf, ho.1, resolveAll]
+
+theorem resolveStep_arg_ne (E : Env) (env : List (Str × PyVal)) (p n : Str) (h : p ≠ n) :
+    arg (resolveStep E env p) n = arg env n := by
+  unfold resolveStep
+  split
+  · rw [arg_dset]; simp [h]
+  · rfl
+
+/-- a parameter that is not the subject of a `localhost` resolution is stored as it was bound -/
+theorem arg_resolveAll_of_not_mem (E : Env) (ps : List Str) (env : List (Str × PyVal)) (n : Str) (h : n ∉ ps) :
+    arg (resolveAll E ps env) n = arg env n := by
+  induction ps generalizing env with
+  | nil => rfl
+  | cons p ps ih =>
+    simp only [List.mem_cons, not_or] at h
+    simp only [resolveAll, List.foldl_cons]
+    have := ih (resolveStep E env p) h.2
+    simp only [resolveAll] at this
+    rw [this, resolveStep_arg_ne E env p n (fun e => h.1 e.symm)]
+
+/-- the resolved parameter holds the bound string with the literal `localhost` replaced -/
+theorem arg_resolveAll_single (E : Env) (env : List (Str × PyVal)) (p : Str) :
+    arg (resolveAll E [p] env) p = (match arg env p with | .str h => .str (normLocalhost E h) | v => v) := by
+  simp only [resolveAll, List.foldl_cons, List.foldl_nil, resolveStep]
+  cases hv : arg env p <;> simp [hv, arg_dset]
+
+/-- what the bound argument `n` of constructor `c` must be: the value the string gives, else the caller's default, else
+the constructor default -/
+def boundSpec (c : Ctor) (I : Iface) (parts : List Str) (d : List (Str × PyVal)) (n : Str) : Option PyVal :=
   match c.args.find? (fun x => x.1 = n) with
   | none => none
   | some ar =>
     (match specValue I parts d n with
      | some w => some w
-     | none => ar.2).map (normHost E c.kind n)
+     | none => ar.2)
 
-theorem dget_map_keep (a : List (Str × PyVal)) (g : Str → PyVal → PyVal) (n : Str) :
-    dget (a.map (fun kv => (kv.1, g kv.1 kv.2))) n = (dget a n).map (g n) := by
-  induction a with
-  | nil => rfl
-  | cons kv r ih =>
-    obtain ⟨k, v⟩ := kv
-    simp only [List.map_cons, dget]
-    by_cases h : k = n
-    · subst h; simp
-    · simp [h, ih]
-
-theorem construct_ok {E : Env} {kind : Kind} {a attrs : List (Str × PyVal)} (h : construct E kind a = .ok attrs) (n : Str) :
-    dget attrs n = (dget a n).map (normHost E kind n) := by
-  have hid : ∀ (k : Kind), k ≠ .tcp → k ≠ .udp → (dget a n).map (normHost E k n) = dget a n := by
-    intro k h1 h2
-    cases dget a n with
-    | none => rfl
-    | some v => simp [normHost, h1, h2]
-  have hsock : ∀ (k : Kind), (k = .tcp ∨ k = .udp) → ∀ h0, arg a sHost = .str h0 →
-      dget (a.map (fun kv => if kv.1 = sHost then (kv.1, PyVal.str (if h0 = sLocalhost then E.localhostAddr else h0)) else kv)) n
-        = (dget a n).map (normHost E k n) := by
-    intro k hk h0 harg
-    have : (fun (kv : Str × PyVal) => if kv.1 = sHost then (kv.1, PyVal.str (if h0 = sLocalhost then E.localhostAddr else h0)) else kv)
-        = (fun kv => (kv.1, (fun m v => if m = sHost then PyVal.str (if h0 = sLocalhost then E.localhostAddr else h0) else v) kv.1 kv.2)) := by
-      funext kv
-      by_cases hh : kv.1 = sHost <;> simp [hh]
-    rw [this]
-    refine (dget_map_keep a (fun m v => if m = sHost then PyVal.str (if h0 = sLocalhost then E.localhostAddr else h0) else v) n).trans ?_
-    cases hg : dget a n with
-    | none => rfl
-    | some v =>
-      simp only [Option.map_some, normHost, hk, and_true]
-      by_cases hn : n = sHost
-      · subst hn
-        simp only [arg, hg, Option.getD_some] at harg
-        subst harg
-        simp
-      · simp [hn]
-  cases kind with
-  | serial =>
-    simp only [construct] at h
-    split at h
-    · cases h; exact (hid .serial (by decide) (by decide)).symm
-    · cases h
-  | tcp =>
-    simp only [construct] at h
-    split at h
-    · rename_i h0 harg
-      split at h
-      · cases h; exact hsock .tcp (Or.inl rfl) h0 harg
-      · cases h
-    · cases h
-  | udp =>
-    simp only [construct] at h
-    split at h
-    · rename_i h0 harg
-      split at h
-      · cases h; exact hsock .udp (Or.inr rfl) h0 harg
-      · cases h
-    · cases h
-  | usbtmc =>
-    simp only [construct] at h
-    split at h
-    · cases h; exact (hid .usbtmc (by decide) (by decide)).symm
-    · cases h
-  | gpib =>
-    simp only [construct] at h
-    cases h; exact (hid .gpib (by decide) (by decide)).symm
-  | vxi11 =>
-    simp only [construct] at h
-    split at h
-    · split at h
-      · cases h; exact (hid .vxi11 (by decide) (by decide)).symm
-      · cases h
-    · cases h
+/-- naming convention that ties attributes to parameters: parameter `p` is stored alone in attribute `p` or `_p`, or
+`host` and `port` together, in this order, in `_address`; and every constructor argument is stored (decidable) -/
+def storesNamed (c : Ctor) : Bool :=
+  (storesOf c.prog).all (fun s =>
+    (match s.2 with
+     | [p] => s.1 == p || s.1 == '_' :: p
+     | _ => false) ||
+    (s.1 == ['_','a','d','d','r','e','s','s'] && s.2 == [sHost, sPort])) &&
+  c.args.all (fun a => ((storesOf c.prog).filter (fun s => s.2.contains a.1)).length == 1)
 
 end QmiModel.Descriptor
